@@ -28,6 +28,7 @@
 (*  iteration  iter nodes  <<"rep",a,lo,hi>>                               *)
 (*                         <<"sep",a,s,lo,hi,lead,trail>>                  *)
 (*                         <<"enum",it>>  <<"cfgrep",it>>                  *)
+(*                         <<"intoiter",a>>  (a.into_iter())               *)
 (*             consumers   <<"collect",it,sink>> <<"exact",it,n>>          *)
 (*                         <<"run",it>> <<"foldl",a,it,f>>                 *)
 (*                         <<"foldr",it,b,f>>                              *)
@@ -179,7 +180,7 @@ FoldR(f, items, acc) == IF items = <<>> THEN acc ELSE VF(f, Head(items), FoldR(f
 ---------------------------------------------------------------------------
 (* Structural analysis used by well-formedness *)
 
-IterOps == {"rep", "sep", "enum", "cfgrep", "cfgrepmin", "cfgrepmax", "cfgreptry"}
+IterOps == {"rep", "sep", "enum", "cfgrep", "cfgrepmin", "cfgrepmax", "cfgreptry", "intoiter"}
 
 (* CanEmpty(g): g may succeed without consuming a token (over-approximation) *)
 RECURSIVE CanEmpty(_)
@@ -210,6 +211,7 @@ CanEmpty(g) ==
               "tospan", "toslice", "boxed", "memo", "label", "maperr", "rec", "recd", "withstate", "extsub"} -> CanEmpty(g[2])
     [] o = "lazy" -> TRUE
     [] o = "rep" -> g[3] = 0 \/ CanEmpty(g[2])
+    [] o = "intoiter" -> CanEmpty(g[2])
     [] o = "sep" -> g[4] = 0 \/ CanEmpty(g[2])
     [] o \in {"enum", "cfgrep", "cfgrepmin", "cfgrepmax", "cfgreptry"} -> TRUE
     [] o \in {"collect", "run"} -> CanEmpty(g[2])
@@ -234,6 +236,8 @@ WFIter(it) ==
   LET o == Op(it) IN
   CASE o = "rep" -> WF(it[2]) /\ ~CanEmpty(it[2])
     [] o = "sep" -> WF(it[2]) /\ WF(it[3]) /\ ~CanEmpty(it[2])
+    \* p.into_iter(): p's output must be a collection -- here always a Vec from collect
+    [] o = "intoiter" -> WF(it[2]) /\ Op(it[2]) = "collect" /\ it[2][3] = "vec"
     [] o \in {"enum", "cfgrep", "cfgrepmin", "cfgrepmax", "cfgreptry"} -> Op(it[2]) \in {"rep", "sep"} /\ WF(it[2][2]) /\ ~CanEmpty(it[2][2])
                                    /\ (Op(it[2]) = "sep" => WF(it[2][3]))
     [] OTHER -> FALSE
@@ -281,7 +285,7 @@ HasOp(g, ops) ==
        [] o \in {"group", "grouparr", "choice", "choicev"} -> AnyHasOp(g[2], ops)
        [] o \in {"ornot", "not", "rewind", "map", "to", "ignored", "filter", "trymap", "trymapw", "validate", "mw",
                  "tospan", "toslice", "boxed", "memo", "label", "maperr", "rec", "recd", "withstate", "extsub", "lazy",
-                 "collect", "run", "exact", "rep", "enum", "cfgrep", "cfgrepmin", "cfgrepmax", "cfgreptry"} -> HasOp(g[2], ops)
+                 "collect", "run", "exact", "rep", "enum", "cfgrep", "cfgrepmin", "cfgrepmax", "cfgreptry", "intoiter"} -> HasOp(g[2], ops)
        [] o = "sep" -> HasOp(g[2], ops) \/ HasOp(g[3], ops)
        [] o \in {"foldl", "foldr", "foldlw", "foldrw"} -> HasOp(g[2], ops) \/ HasOp(g[3], ops)
        [] o = "recover" -> HasOp(g[2], ops) \/ HasOp(g[3], ops)
